@@ -320,9 +320,11 @@ def capitalise : Str → Str
   | [] => []
   | c :: cs => c.toUpper :: cs
 
-/-- `_basetype`: `str(dtype)[0].upper() + str(dtype)[1:]` (`"<U0"` → `String`) -/
-def dmrTypeTag (dtypeName : Str) : Str :=
-  let t := capitalise dtypeName
-  if t = "<U0".toList then "String".toList else t
+/-- `_basetype`: the element tag for a numpy dtype of the given `kind` whose `str()` is `dtypeName`:
+    strings → `String`, unsigned → `UInt` + width, otherwise the capitalised numpy name -/
+def dmrTypeTag (kind : Char) (dtypeName : Str) : Str :=
+  if kind = 'S' || kind = 'U' then "String".toList
+  else if kind = 'u' then "UInt".toList ++ dtypeName.drop 4
+  else capitalise dtypeName
 
 end Pydap.Dmr
